@@ -428,6 +428,13 @@ def arr_compare(i, op, a, b, n):
         meta["lit"] = [z3.simplify(f(z3.IntVal(j))) for j in range(m)]
     else:
         meta.pop("lit", None)
+    meta.pop("rowcmp", None)
+    if (isinstance(a, Arr) and a.elem == "row") or (isinstance(b, Arr) and b.elem == "row"):
+        if sym not in ("==", "!="):
+            raise Unsupported(f"ordering comparison of two-dimensional arrays ({sym})")
+        # rows are compared as wholes: `==` is "equal in every column", `!=` is "different in some column" - i.e. the element-wise result already
+        # reduced over the last axis by all() / any() respectively; any other use of the (really two-dimensional) result is outside the model
+        meta["rowcmp"] = sym
     return Arr(nn, "bool", f, f"({ka}{sym}{kb})", meta)
 
 
@@ -689,13 +696,28 @@ def install_arrays(reg: Registry):
     def zeros_like(i, a, k, n):
         return full_like(i, [a[0], R(0.0)], k, n)
 
+    def _reduce_bool(i, a, k, n, name):
+        x = a[0]
+        if not isinstance(x, Arr):
+            raise Unsupported(f"xp.{name} of {x!r}")
+        ax = k.get("axis", a[1] if len(a) > 1 else NONE)
+        rc = x.meta.get("rowcmp")
+        if not isinstance(ax, NoneV):
+            # reduction over the last axis of a row-wise comparison: any(x != y, axis=-1) is "the rows differ", all(x == y, axis=-1) "the rows are equal"
+            if rc == {"any": "!=", "all": "=="}[name] and isinstance(ax, Z) and z3.is_int_value(z3.simplify(ax.e)) and z3.simplify(ax.e).as_long() in (-1, 1):
+                return Arr(x.n, "bool", x.at, f"{name}_last_axis({x.key})", {kk: v for kk, v in x.meta.items() if kk != "rowcmp"})
+            raise Unsupported(f"xp.{name} with axis on {x!r}")
+        if rc is not None and rc != {"any": "!=", "all": "=="}[name]:
+            raise Unsupported(f"xp.{name} of an element-wise {rc} of two-dimensional arrays")
+        return B(z3.Const(f"{name}<{x.key}>", BS))
+
     @H("xp.all")
     def xp_all(i, a, k, n):
-        return B(z3.Const(f"all<{a[0].key}>", BS))
+        return _reduce_bool(i, a, k, n, "all")
 
     @H("xp.any")
     def xp_any(i, a, k, n):
-        return B(z3.Const(f"any<{a[0].key}>", BS))
+        return _reduce_bool(i, a, k, n, "any")
 
     @H("xp.stack")
     def xp_stack(i, a, k, n):
